@@ -194,10 +194,10 @@ def c01(run: Run):
         else:
             us = "none" if m["eos"] else str(len(out))
             for dd in [d, rng.pick([d + 1, 4096, 2**32 - 1])]:
-                run.add("rawlzma lc=%d lp=%d pb=%d dict=%d us=%s ml=none ops=d:%s" % (
+                run.add("rawlzma lc=%d lp=%d pb=%d dict=%d us=%s ml=none ops=st;d:%s;st" % (
                     m["lc"], m["lp"], m["pb"], dd, us, m["payload"].hex()),
-                    oracle=lambda res, meta, peak, out=out: None if res.startswith("new:ok ok:") and
-                    res.split(" ")[1].split(":", 2)[2] == out_repr(out) else "raw decoder: expected ok with the format's output, got `%s`" % res[:100],
+                    oracle=lambda res, meta, peak, out=out: None if res.startswith("new:ok st:") and res.split(" ")[2].startswith("ok:") and
+                    res.split(" ")[2].split(":", 2)[2] == out_repr(out) else "raw decoder: expected ok with the format's output, got `%s`" % res[:100],
                     tag="c01:raw", nontrivial=nontriv)
     run.extra_cov["streams"] = len(mats)
 
@@ -468,8 +468,11 @@ def split_by(data, parts):
     return out
 
 
-def stream_ops(data, parts, op="wa"):
-    return ";".join("%s:%s" % (op, c.hex()) for c in split_by(data, parts)) + ";fin"
+def stream_ops(data, parts, op="wa", st=False):
+    """`st=True` interleaves state-digest probes (model vs implementation: staged bytes, range, code,
+    carry-over buffer, every probability, state, reps)"""
+    sep = ";st;" if st else ";"
+    return sep.join("%s:%s" % (op, c.hex()) for c in split_by(data, parts)) + (";st" if st else "") + ";fin"
 
 
 def stream_verdict(res):
@@ -535,7 +538,7 @@ def c05(run: Run):
             b = int(kind.split("@")[1])
             chs = chs[:3] + [[b, len(data) - b], [b, 1, len(data) - b - 1], [b - 1, 1, len(data) - b]]
         for parts in chs:
-            ks.append(run.add("stream us=%s ops=%s" % (us, stream_ops(data, parts)), oracle=None,
+            ks.append(run.add("stream us=%s ops=%s" % (us, stream_ops(data, parts, st=(len(parts) <= 12 and len(data) > 0 and data[0] < 225 and data[0] % 9 + (data[0] // 9) % 5 <= 3))), oracle=None,
                               tag="c05:stream:" + kind, nontrivial=len(parts) > 1))
         groups.append((ref, ks, data, kind))
 
